@@ -27,23 +27,30 @@ STREAMS = ['history-fixed-universe', 'history-random-universe', 'history-enumera
            'managed-values']
 THEOREMS = ['exports_eq_spec', 'children_eq_spec', 'children_nil_iff', 'introspect_fails_iff_nothing_there',
             'interface_names_complete', 'interface_dict_complete', 'table_objects_sendable',
-            'managed_entries_abstract', 'managed_eq_spec', 'classify_ordinary_iff', 'unknown_object_iff_not_exported',
+            'managed_entries_abstract', 'export_succeeds_if_well_typed', 'managed_eq_spec', 'managed_fails_iff', 'classify_ordinary_iff', 'unknown_object_iff_not_exported',
             'ping_answered_everywhere', 'export_signals', 'strictlyBelow_iff_text', 'parse_render_inverse',
             'objectPath_alphabet_eq_source', 'orig_introspect_root_lists_empty_child',
             'orig_managed_reports_prefix_sibling', 'orig_failed_export_stays_visible']
 TRUSTED_BASE = [
     'Python str.startswith/endswith/partition/slicing, sorted() on str, dict insertion order and key '
     'overwrite (mirrored in Obj/Tree.lean, validated by the streams)',
-    'objects are abstract in the model: a path, interfaces with an opaque token for getAllProperties(iface), '
-    'a flag "its readable properties can be marshalled"; what getAllProperties returns is C17, interface XML is C15',
+    'history streams: objects are abstract in Obj/Tree.lean (a path, interfaces with an opaque token per interface, a '
+    'flag "its readable properties can be marshalled"); interface XML is C15',
+    'stream managed-values: objects are instances of declared class chains in Obj/TreeProps.lean; what getAllProperties, '
+    'the variant encoding and Properties.Set do is the C17 model Obj/Props.lean (its own tie is harness/c17.py), here '
+    'tied again through InterfacesAdded / GetManagedObjects, names, variant signatures as marshalled, values',
+    'the harness reads the marshalled replies with its own small DBus wire reader (wire_read), not with txdbus',
     'xml.etree as the remote reader of the introspection document',
 ]
 ASSUMPTIONS = [
     'every exported object reports a valid object path (DBusObject.__init__ validates it) and reports the '
     'same path and interfaces every time it is asked',
-    'the readable property values of an object do not turn unmarshallable while it is exported (an object whose '
-    'values cannot be sent at export time is generated: its export must fail without effect; a value going bad '
-    'later makes GetManagedObjects answer Error.Failed - C10 - and is not generated)',
+    'classes are single-inheritance chains below DBusObject whose properties are declared through DBusProperty '
+    'descriptors (deviations D1, D2 at managed_eq_spec); property types among the 14 signatures C17 models (D5)',
+    'values that do not fit their declared type ARE generated, before and after export: an export then has to fail '
+    'without effect or (if the value still marshals) succeed; GetManagedObjects above such an object answers an error '
+    '(any error name) - the oracle judges content only where every readable value beneath fits its type (D3, D4); '
+    'bool properties are always given bools',
     'one handler, calls arrive one at a time (no re-entrancy from inside exported methods)',
 ]
 RULE = ('a case is one history (universe of paths, list of export/unexport calls with the exported class and '
@@ -923,20 +930,34 @@ def run_batch(ctx, stream, hists, judge=True, client=False):
 
 
 # =========================================================================== stream `managed-values`
-# Objects with DECLARED properties (one class chain, the scope of the C17 model): the per-interface property
-# dicts of InterfacesAdded and of the GetManagedObjects reply - names, variant signatures, values - are
-# compared with the combined model lean/TxdbusModel/Obj/TreeProps.lean (p-commands of drv_c16) and judged
-# by an oracle that knows only which value was assigned last to which property.
+# Objects with DECLARED properties: instances of two class chains (the per-class scope of the C17 model) mixed
+# in one tree.  The per-interface property dicts of InterfacesAdded and of the GetManagedObjects reply - interface
+# names, property names, variant signatures AS MARSHALLED, values - are compared with the combined model
+# lean/TxdbusModel/Obj/TreeProps.lean (p-commands of drv_c16) and judged by an oracle that knows only which
+# value was assigned last to which property.
+import struct as _struct
+
 P_A, P_B, P_C = 'org.verif.P.A', 'org.verif.P.B', 'org.verif.P.sub.C'
+Q_M, Q_N = 'org.verif.Q.M', 'org.verif.Q.N'
 P_PROPS = 'org.freedesktop.DBus.Properties'
-# attribute -> (interface, property, signature, readable, writable)
-P_DECL = {'label': (P_A, 'label', 's', True, False), 'secret': (P_A, 'secret', 'i', False, True),
-          'level': (P_A, 'level', 'i', True, True), 'count': (P_B, 'count', 'x', True, False),
-          'flag': (P_B, 'flag', 'b', True, True)}
+# chain id -> attribute -> (interface, property, signature, readable, writable)
+CHAINS = {
+    0: {'label': (P_A, 'label', 's', True, False), 'secret': (P_A, 'secret', 'i', False, True),
+        'level': (P_A, 'level', 'i', True, True), 'count': (P_B, 'count', 'x', True, False),
+        'flag': (P_B, 'flag', 'b', True, True)},
+    # second chain: the derived class OVERRIDES the base's descriptor `name` (same interface and property), the
+    # property name `name` exists on two interfaces, `size` on two interfaces with different types
+    1: {'name': (Q_M, 'name', 's', True, True), 'size': (Q_M, 'size', 't', True, False),
+        'where': (Q_M, 'where', 'o', True, False), 'tags': (Q_M, 'tags', 'as', True, True),
+        'any': (Q_M, 'any', 'v', True, True), 'ratio': (Q_M, 'ratio', 'd', True, False),
+        'small': (Q_M, 'small', 'y', True, True), 'shape': (Q_M, 'shape', 'g', True, False),
+        'name_n': (Q_N, 'name', 's', True, False), 'size_n': (Q_N, 'size', 'i', True, True)},
+}
+CHAIN_IFACES = {0: [P_B, P_C, P_A, P_PROPS], 1: [Q_N, Q_M, P_PROPS]}
 _PCLS = {}
 
 
-def pclass():
+def pclasses():
     import txdbus
     key = txdbus.__file__
     if key in _PCLS:
@@ -960,54 +981,219 @@ def pclass():
         count = objects.DBusProperty('count', P_B)
         flag = objects.DBusProperty('flag')
 
-    _PCLS[key] = PDer
-    return PDer
+    i_m = DBusInterface(Q_M, Property('name', 's', writeable=True), Property('size', 't'), Property('where', 'o'),
+                        Property('tags', 'as', writeable=True), Property('any', 'v', writeable=True),
+                        Property('ratio', 'd'), Property('small', 'y', writeable=True), Property('shape', 'g'))
+    i_n = DBusInterface(Q_N, Property('name', 's'), Property('size', 'i', writeable=True))
+
+    class QBase(objects.DBusObject):
+        dbusInterfaces = [i_m]
+        name = objects.DBusProperty('name', Q_M)
+        size = objects.DBusProperty('size', Q_M)
+        where = objects.DBusProperty('where')
+        tags = objects.DBusProperty('tags')
+        any = objects.DBusProperty('any')
+        ratio = objects.DBusProperty('ratio')
+
+    class QDer(QBase):
+        dbusInterfaces = [i_n]
+        name = objects.DBusProperty('name', Q_M)       # overrides QBase.name: same interface, same property
+        small = objects.DBusProperty('small')
+        shape = objects.DBusProperty('shape')
+        name_n = objects.DBusProperty('name', Q_N)     # the same property name on another interface
+        size_n = objects.DBusProperty('size', Q_N)
+
+    _PCLS[key] = {0: PDer, 1: QDer}
+    return _PCLS[key]
 
 
 def p_decl_lines():
-    """The class chain in the line format of the driver (most derived class first, class-dict order)."""
+    """Both class chains in the line format of the driver (most derived class first, class-dict order)."""
     def prop(n, sig, r, w):
         return '%s %s %d %d t' % (hx(n), hx(sig), r, w)
-    return ['preset', 'pclass',
+
+    def desc(attr, pn, iface):
+        return 'pdesc %s %s %s' % (hx(attr), hx(pn), hx(iface) if iface else '~')
+    return ['preset', 'pworld 0', 'pclass',
             'piface %s %s %s' % (hx(P_B), prop('count', 'x', 1, 0), prop('flag', 'b', 1, 1)),
             'piface %s' % hx(P_C),
-            'pdesc %s %s ~' % (hx('level'), hx('level')),
-            'pdesc %s %s %s' % (hx('count'), hx('count'), hx(P_B)),
-            'pdesc %s %s ~' % (hx('flag'), hx('flag')),
+            desc('level', 'level', None), desc('count', 'count', P_B), desc('flag', 'flag', None),
             'pclass',
             'piface %s %s %s %s' % (hx(P_A), prop('label', 's', 1, 0), prop('secret', 'i', 0, 1), prop('level', 'i', 1, 1)),
-            'pdesc %s %s ~' % (hx('label'), hx('label')),
-            'pdesc %s %s %s' % (hx('secret'), hx('secret'), hx(P_A)),
+            desc('label', 'label', None), desc('secret', 'secret', P_A),
+            'pbind',
+            'pworld 1', 'pclass',
+            'piface %s %s %s' % (hx(Q_N), prop('name', 's', 1, 0), prop('size', 'i', 1, 1)),
+            desc('name', 'name', Q_M), desc('small', 'small', None), desc('shape', 'shape', None),
+            desc('name_n', 'name', Q_N), desc('size_n', 'size', Q_N),
+            'pclass',
+            'piface %s %s' % (hx(Q_M), ' '.join([prop('name', 's', 1, 1), prop('size', 't', 1, 0), prop('where', 'o', 1, 0),
+                                                 prop('tags', 'as', 1, 1), prop('any', 'v', 1, 1), prop('ratio', 'd', 1, 0),
+                                                 prop('small', 'y', 1, 1), prop('shape', 'g', 1, 0)])),
+            desc('name', 'name', Q_M), desc('size', 'size', Q_M), desc('where', 'where', None), desc('tags', 'tags', None),
+            desc('any', 'any', None), desc('ratio', 'ratio', None),
             'pbind']
 
 
 def pval(v):
+    """A Python value in the driver's value syntax."""
     if v is None:
         return 'N'
     if isinstance(v, bool):
         return 'B1' if v else 'B0'
     if isinstance(v, int):
         return 'I%d' % v
+    if isinstance(v, float):
+        return 'D%d' % _struct.unpack('<Q', _struct.pack('<d', v))[0]
+    if isinstance(v, list):
+        return 'L:' + ','.join(hx(x) for x in v)
     return 'S' + hx(v)
 
 
 def p_fits(sig, v):
+    """`v` is a value of the DBus type `sig` (DBus specification)."""
     if sig == 'b':
         return isinstance(v, bool)
+    if sig == 'd':
+        return isinstance(v, float)
+    if sig == 'y':
+        return isinstance(v, int) and not isinstance(v, bool) and 0 <= v <= 255
+    if sig == 't':
+        return isinstance(v, int) and not isinstance(v, bool) and 0 <= v <= 2 ** 64 - 1
+    if sig == 'o':
+        return isinstance(v, str) and valid_path(v)
+    if sig == 'g':
+        return isinstance(v, str) and v in ('', 'as', 'ii', 'a{sv}', 's')
+    if sig == 'as':
+        return isinstance(v, list) and all(isinstance(x, str) and '\0' not in x for x in v)
+    if sig == 'v':
+        return (isinstance(v, (bool, float)) or (isinstance(v, int) and -2 ** 63 <= v <= 2 ** 64 - 1)
+                or (isinstance(v, str) and '\0' not in v) or p_fits('as', v))
     return value_fits(sig, v)
 
 
+# ---- the marshalled bytes, read independently of txdbus: what a remote peer finds on the wire
+def _align(pos, n):
+    return (pos + n - 1) // n * n
+
+
+_FIXED = {'y': ('B', 1), 'b': ('I', 4), 'n': ('h', 2), 'q': ('H', 2), 'i': ('i', 4), 'u': ('I', 4), 'x': ('q', 8),
+          't': ('Q', 8), 'd': ('Q', 8), 'h': ('I', 4)}
+
+
+def _one_type(sig, i):
+    """End index of the single complete type starting at sig[i]."""
+    c = sig[i]
+    if c == 'a':
+        return _one_type(sig, i + 1)
+    if c in '({':
+        close = ')' if c == '(' else '}'
+        j = i + 1
+        while sig[j] != close:
+            j = _one_type(sig, j)
+        return j + 1
+    return i + 1
+
+
+def _wire_align(t):
+    c = t[0]
+    if c in _FIXED:
+        return _FIXED[c][1]
+    return {'s': 4, 'o': 4, 'g': 1, 'v': 1, 'a': 4, '(': 8, '{': 8}[c]
+
+
+def wire_read(t, data, pos, e):
+    """Read one value of the single complete type `t`; variants come back as ('v', signature, value),
+    doubles as ('d', 64-bit pattern)."""
+    c = t[0]
+    pos = _align(pos, _wire_align(t))
+    if c in _FIXED:
+        f, n = _FIXED[c]
+        v = _struct.unpack_from(e + f, data, pos)[0]
+        if c == 'b':
+            v = bool(v)
+        if c == 'd':
+            v = ('d', v)
+        return v, pos + n
+    if c in 'so':
+        n = _struct.unpack_from(e + 'I', data, pos)[0]
+        return data[pos + 4:pos + 4 + n].decode('utf-8'), pos + 4 + n + 1
+    if c == 'g':
+        n = data[pos]
+        return data[pos + 1:pos + 1 + n].decode('ascii'), pos + 1 + n + 1
+    if c == 'v':
+        sg, pos = wire_read('g', data, pos, e)
+        v, pos = wire_read(sg, data, pos, e)
+        return ('v', sg, v), pos
+    if c == 'a':
+        n = _struct.unpack_from(e + 'I', data, pos)[0]
+        et = t[1:]
+        pos = _align(pos + 4, _wire_align(et))
+        end = pos + n
+        items = []
+        while pos < end:
+            v, pos = wire_read(et, data, pos, e)
+            items.append(v)
+        return (dict(items) if et[0] == '{' else items), end
+    if c in '({':
+        j, out = 1, []
+        while t[j] not in ')}':
+            k = _one_type(t, j)
+            v, pos = wire_read(t[j:k], data, pos, e)
+            out.append(v)
+            j = k
+        return tuple(out), pos
+    raise ValueError('type %r' % t)
+
+
+def wire_body(raw):
+    """The body of a marshalled message as a list of values (read from the bytes alone)."""
+    e = '<' if raw[0:1] == b'l' else '>'
+    (fields, pos) = wire_read('a(yv)', raw, 12, e)
+    sig = ''
+    for code, var in fields:
+        if code == 8:
+            sig = var[2]
+    pos = _align(pos, 8)
+    out, i = [], 0
+    while i < len(sig):
+        k = _one_type(sig, i)
+        v, pos = wire_read(sig[i:k], raw, pos, e)
+        out.append(v)
+        i = k
+    return out
+
+
+def wire_val(sg, v):
+    """A variant's payload as the driver prints the model's plain value."""
+    if sg == 'b':
+        return pval(bool(v))
+    if sg == 'd':
+        return 'D%d' % v[1]
+    if sg and sg[0] == 'a':
+        return 'L:' + ','.join(hx(x[2] if isinstance(x, tuple) else x) for x in v)
+    return pval(v)
+
+
 def p_show_dict(d):
-    """{iface: {pname: value-as-handed-to-the-connection}} -> the driver's <objdict>."""
+    """{iface: {pname: ('v', sig, value)}} as read from the wire -> the driver's <objdict>."""
     items = []
     for iface, props in d.items():
-        ps = []
-        for n, v in props.items():
-            sig = getattr(v, 'dbusSignature', None) or ('s' if isinstance(v, str) else '?')
-            val = pval(bool(v)) if sig == 'b' else pval(int(v) if isinstance(v, int) else str(v))
-            ps.append('%s~%s~%s' % (hx(n), hx(sig), val))
+        ps = ['%s~%s~%s' % (hx(n), hx(var[1]), wire_val(var[1], var[2])) for n, var in props.items()]
         items.append('%s=%s' % (hx(iface), '|'.join(ps) if ps else '[]'))
     return ','.join(items) if items else '[]'
+
+
+def wire_plain(x):
+    if isinstance(x, tuple) and x and x[0] == 'v':
+        return wire_plain(x[2])
+    if isinstance(x, tuple) and x and x[0] == 'd':
+        return _struct.unpack('<d', _struct.pack('<Q', x[1]))[0]
+    if isinstance(x, dict):
+        return {k: wire_plain(v) for k, v in x.items()}
+    if isinstance(x, list):
+        return [wire_plain(v) for v in x]
+    return x
 
 
 def pcanon(line):
@@ -1016,8 +1202,8 @@ def pcanon(line):
         ents = []
         for ent in tok.split(';'):
             head, sep, od = ent.partition(':')
-            if not sep:
-                head, od = '', ent
+            if not sep or head.startswith('L'):
+                head, sep, od = '', '', ent
             ifs = []
             for it in od.split(','):
                 name, eq, props = it.partition('=')
@@ -1027,100 +1213,134 @@ def pcanon(line):
     return ' '.join(toks)
 
 
-def p_expected(cur, n):
+def p_expected(cur, n, chain):
     """{iface: {readable property: current value}} of instance n, from the assignments alone."""
-    d = {P_A: {}, P_B: {}, P_C: {}, P_PROPS: {}}
-    for attr, (iface, pn, sig, r, w) in P_DECL.items():
+    d = {i: {} for i in CHAIN_IFACES[chain]}
+    for attr, (iface, pn, sig, r, w) in CHAINS[chain].items():
         if r:
-            d[iface][pn] = cur.get((n, attr))
+            d[iface][pn] = cur.get((n, iface, pn))
     return d
 
 
-def p_sendable(cur, n):
-    return all(p_fits(sig, cur.get((n, attr))) for attr, (_, _, sig, r, _) in P_DECL.items() if r)
+def p_sendable(cur, n, chain):
+    return all(p_fits(sig, cur.get((n, iface, pn))) for (iface, pn, sig, r, _) in CHAINS[chain].values() if r)
 
 
 GOOD_VALS = {'label': ['', 'x', 'hello', 'café'], 'level': [0, 1, -1, 2 ** 31 - 1], 'count': [0, 7, -2 ** 40, 2 ** 62],
-             'flag': [True, False], 'secret': [3, -4]}
-BAD_VALS = {'label': [None, 'a\0b'], 'level': ['zz', 2 ** 40, None], 'count': [2 ** 70, None], 'flag': [None],
-            'secret': ['zz', None, 2 ** 40]}
+             'flag': [True, False], 'secret': [3, -4],
+             'name': ['n', 'name'], 'size': [0, 2 ** 63, 5], 'where': ['/', '/x/y'], 'tags': [['a', 'b'], ['t']],
+             'any': [5, 'x', True, ['p', 'q'], 0.5], 'ratio': [0.5, -2.0, 1e300], 'small': [0, 255, 7],
+             'shape': ['as', 'ii', ''], 'name_n': ['other'], 'size_n': [3, -3]}
+BAD_VALS = {'label': [None, 'a\0b'], 'level': ['zz', 2 ** 40, None], 'count': [2 ** 70, None], 'flag': [],
+            'secret': ['zz', None, 2 ** 40],
+            'name': [None], 'size': [-1, None], 'where': ['not/a/path', None], 'tags': [None], 'any': [None],
+            'ratio': [None], 'small': [256, None], 'shape': [None], 'name_n': [None], 'size_n': [2 ** 40, None]}
+SET_SHAPES = {0: [(P_A, 'level', [5, -7, 0, 11]), (P_A, 'level', ['zz']), (P_A, 'label', ['no']), (P_B, 'flag', [True, False]),
+                  (P_A, 'nope', [1]), (P_A, 'secret', [9]), (P_B, 'count', [3]), ('', 'level', [21, 22]), ('', 'flag', [True])],
+              1: [(Q_M, 'name', ['set', 'again']), (Q_N, 'name', ['no']), (Q_N, 'size', [4, -4]), (Q_M, 'size', [9]),
+                  (Q_M, 'small', [9, 300]), (Q_M, 'tags', [['s', 't']]), (Q_M, 'any', [77, 'str', False]), ('', 'small', [1]),
+                  (Q_M, 'nope', [1])]}
 
 
 def gen_values_history(rng, universe, length):
-    """ops: ['make', n, path] ['assign', n, attr, v] ['export', n] ['unexport', path] ['set', path, iface, pname, v]"""
+    """ops: ['make', n, chain, path] ['assign', n, attr, v] ['export', n] ['unexport', path]
+    ['set', path, iface, pname, v]"""
     ops, made, live, cur = [], {}, {}, {}
-    nxt = 0
+    nxt = [0]
 
     def assign(n, attr, v):
         ops.append(['assign', n, attr, v])
-        cur[(n, attr)] = v
+        iface, pn = CHAINS[made[n][0]][attr][:2]
+        cur[(n, iface, pn)] = v
 
     def export(n):
         ops.append(['export', n])
-        if p_sendable(cur, n):
-            live[made[n]] = n
+        if p_sendable(cur, n, made[n][0]):
+            live[made[n][1]] = n
+
+    def make(path, chain, bad=0.04, unset=0.01):
+        n = nxt[0]
+        nxt[0] += 1
+        made[n] = (chain, path)
+        ops.append(['make', n, chain, path])
+        for attr in CHAINS[chain]:
+            q = rng.random()
+            # a bool property is always given a bool: `Boolean(None)` raises where a plain `bool(None)` would not, and
+            # what is reported for an UNSET property is not the statement's business (deviation D3)
+            if q < 1 - bad - unset or not BAD_VALS[attr]:
+                assign(n, attr, rng.choice(GOOD_VALS[attr]))
+            elif q < 1 - unset:
+                assign(n, attr, rng.choice(BAD_VALS[attr]))
+        export(n)
+        return n
 
     for _ in range(length):
         r = rng.random()
         if not made or r < 0.22:
-            path = rng.choice(universe)
-            n = nxt
-            nxt += 1
-            made[n] = path
-            ops.append(['make', n, path])
-            for attr in P_DECL:                       # give it values, mostly good ones
-                q = rng.random()
-                if q < 0.93:
-                    assign(n, attr, rng.choice(GOOD_VALS[attr]))
-                elif q < 0.98:
-                    assign(n, attr, rng.choice(BAD_VALS[attr]))
-            export(n)
+            # a free path, or (re-export over a live path with an instance of possibly ANOTHER class) a live one
+            make(rng.choice(universe), rng.choice([0, 0, 1]))
         elif r < 0.42:
             n = rng.choice(sorted(made))
-            attr = rng.choice(sorted(P_DECL))
-            vals = GOOD_VALS[attr] if rng.random() < 0.85 else BAD_VALS[attr]
+            attr = rng.choice(sorted(CHAINS[made[n][0]]))
+            vals = GOOD_VALS[attr] if rng.random() < 0.85 or not BAD_VALS[attr] else BAD_VALS[attr]
             assign(n, attr, rng.choice(vals))
-        elif r < 0.55:
+        elif r < 0.53:
             export(rng.choice(sorted(made)))
-        elif r < 0.66:
+        elif r < 0.64:
             p = rng.choice(sorted(live)) if live and rng.random() < 0.8 else rng.choice(universe)
             ops.append(['unexport', p])
             live.pop(p, None)
         else:
             path = rng.choice(sorted(live)) if live and rng.random() < 0.85 else rng.choice(universe)
-            iface, pn, v = rng.choice([(P_A, 'level', rng.choice([5, -7, 0])), (P_A, 'level', 'zz'), (P_A, 'label', 'no'),
-                                       (P_B, 'flag', rng.choice([True, False])), (P_A, 'nope', 1), (P_A, 'secret', 9),
-                                       (P_B, 'count', 3), (P_A, 'level', rng.choice([11, 12]))])
+            chain = made[live[path]][0] if path in live else rng.choice([0, 1])
+            iface, pn, vs = rng.choice(SET_SHAPES[chain])
+            v = rng.choice(vs)
             ops.append(['set', path, iface, pn, v])
-            if path in live and (iface, pn) in ((P_A, 'level'), (P_B, 'flag')) and p_fits('i' if pn == 'level' else 'b', v):
-                cur[(live[path], pn)] = v
+            if path in live:
+                for attr, (di, dp, sig, rd, wr) in CHAINS[chain].items():
+                    if dp == pn and (iface == di) and wr and p_fits(sig, v):
+                        cur[(live[path], di, dp)] = v
+    # forced: a well-typed parent and child of different classes, then the child's property goes bad and good again
+    deep = [p for p in universe if any(strictly_below(q, p) for q in universe if q != p)]
+    if deep:
+        child = rng.choice(deep)
+        parent = rng.choice([q for q in universe if strictly_below(q, child)])
+        a = make(parent, 0, bad=0, unset=0)
+        b = make(child, 1, bad=0, unset=0)
+        assign(b, 'where', 'not/a/path')
+        assign(a, 'level', 3)
+        assign(b, 'where', '/ok')
     return ops
 
 
 def run_values_history(ctx, hist, lines, expect):
     from txdbus import objects, message
-    cls = pclass()
+    clss = pclasses()
     conn = FakeConn()
     h = objects.DBusObjectHandler(conn)
-    insts, cur, exported = {}, {}, {}
+    insts, chain_of, cur, exported = {}, {}, {}, {}
     universe = hist['universe']
     lines.extend(p_decl_lines())
     expect.extend([(hist, 0, ['decl'], 'ok')] * len(p_decl_lines()))
-    tainted = False
+    tainted = [False]
 
     def take():
-        conn.take()
-        out, conn.msgs = conn.msgs, []
+        out = conn.take()
+        conn.msgs = []
         return out
 
+    def is_sig(raw, member):
+        m = message.parseMessage(raw, [])
+        return isinstance(m, message.SignalMessage) and m.member == member and m
+
     def judge_managed(step_no, path, reply_d, line):
-        if tainted or path not in exported:
+        if tainted[0] or path not in exported:
             return
         below = {q: m for q, m in exported.items() if strictly_below(path, q)}
-        if not all(p_sendable(cur, m) for m in below.values()):
-            return                                             # a value that cannot be sent: Error.Failed is C10's business
+        if not all(p_sendable(cur, m, chain_of[m]) for m in below.values()):
+            return                      # a value that cannot be sent beneath: the statement is silent (Error.Failed, D4)
         inp = {'universe': universe, 'ops': hist['ops'][:step_no], 'query': ['managed', path]}
-        want = {q: p_expected(cur, m) for q, m in below.items()}
+        want = {q: p_expected(cur, m, chain_of[m]) for q, m in below.items()}
         if reply_d is None:
             ctx.violation('managed-objects-fails', 'GetManagedObjects on an exported path is not answered with the objects',
                           inp, observed=line, expected=sorted(want))
@@ -1128,27 +1348,38 @@ def run_values_history(ctx, hist, lines, expect):
             ctx.violation('managed-objects-mismatch',
                           'GetManagedObjects does not report exactly the exported objects strictly beneath the path',
                           inp, observed=sorted(reply_d), expected=sorted(want))
-        elif plain(reply_d) != want:
+        elif wire_plain(reply_d) != want:
             ctx.violation('managed-objects-content',
                           'an object reported by GetManagedObjects does not carry exactly its interfaces and its readable '
-                          'properties with their current values', inp, observed=plain(reply_d), expected=want)
+                          'properties with their current values', inp, observed=wire_plain(reply_d), expected=want)
+        else:
+            for q, m in below.items():          # the variant type of a well-typed basic property is its declared type
+                for (iface, pn, sig, rd, _) in CHAINS[chain_of[m]].values():
+                    if rd and len(sig) == 1 and sig != 'v' and reply_d[q][iface][pn][1] != sig:
+                        ctx.violation('managed-objects-variant-type',
+                                      'a readable property is reported with a variant type other than its declared basic type',
+                                      inp, observed={q: {iface: {pn: reply_d[q][iface][pn][1]}}}, expected=sig)
+                        return
 
     for step_no, op in enumerate(hist['ops'], 1):
         take()
         if op[0] == 'make':
-            insts[op[1]] = cls(op[2])
-            lines.append('pobj %d %s' % (op[1], hx(op[2])))
+            _, n, chain, path = op
+            insts[n] = clss[chain](path)
+            chain_of[n] = chain
+            lines.append('pobj %d %d %s' % (n, chain, hx(path)))
             expect.append((hist, step_no, ['make'], 'ok'))
             continue
         if op[0] == 'assign':
+            n, attr, v = op[1], op[2], op[3]
             try:
-                setattr(insts[op[1]], op[2], op[3])
-                line = 'ok'
-            except Exception:      # noqa   (PropertiesChanged of an attached object that cannot be built)
-                line = 'raised'
-            cur[(op[1], op[2])] = op[3]
-            lines.append('passign %d %s %s' % (op[1], hx(op[2]), pval(op[3])))
-            expect.append((hist, step_no, ['assign'], line))
+                setattr(insts[n], attr, v)
+            except Exception:      # noqa   (PropertiesChanged of an attached object that cannot be built: C17)
+                pass
+            iface, pn = CHAINS[chain_of[n]][attr][:2]
+            cur[(n, iface, pn)] = v
+            lines.append('passign %d %s %s' % (n, hx(attr), pval(v)))
+            expect.append((hist, step_no, ['assign'], None))          # what assignment answers is C17's subject
             ctx.stat('values-op=assign')
         elif op[0] == 'export':
             n = op[1]
@@ -1159,36 +1390,41 @@ def run_values_history(ctx, hist, lines, expect):
             except Exception as e:     # noqa
                 exc = type(e).__name__
             sent = take()
-            ok = p_sendable(cur, n)
+            ok = p_sendable(cur, n, chain_of[n])
+            sig = len(sent) == 1 and is_sig(sent[0], 'InterfacesAdded')
+            body = wire_body(sent[0]) if sig else None
             if exc is not None:
                 line = 'raised' if not sent else 'raised+sent'
-            elif len(sent) == 1 and isinstance(sent[0], message.SignalMessage) and sent[0].member == 'InterfacesAdded':
-                line = 'added %s %s %s' % (hx(sent[0].path), hx(sent[0].body[0]), p_show_dict(sent[0].body[1]))
+            elif sig:
+                line = 'added %s %s %s' % (hx(sig.path), hx(body[0]), p_show_dict(body[1]))
             else:
                 line = 'other:%d' % len(sent)
             lines.append('pexport %d' % n)
             expect.append((hist, step_no, ['export'], line))
-            ctx.stat('values-op=export' + ('' if ok else '-unsendable'))
+            ctx.stat('values-op=export' + ('' if ok else '-unsendable') + ('-over-live' if path in exported else ''))
             inp = {'universe': universe, 'ops': hist['ops'][:step_no], 'query': ['signals']}
             if ok:
                 exported[path] = n
-                good = (exc is None and len(sent) == 1 and isinstance(sent[0], message.SignalMessage)
-                        and sent[0].member == 'InterfacesAdded' and sent[0].body[0] == path)
-                if not tainted and not good:
+                good = exc is None and sig and body[0] == path
+                if not tainted[0] and not good:
                     ctx.violation('export-signal-wrong',
-                                  'exportObject does not announce itself with one InterfacesAdded naming the path and the interfaces',
-                                  inp, observed=line, expected=['InterfacesAdded', path])
-                    tainted = True
-                elif not tainted and plain(message.parseMessage(sent[0].rawMessage, []).body[1]) != p_expected(cur, n):
+                                  'exportObject of an object whose readable properties all hold values of their types does not '
+                                  'announce itself with one InterfacesAdded naming the path', inp, observed=line,
+                                  expected=['InterfacesAdded', path])
+                    tainted[0] = True
+                elif not tainted[0] and wire_plain(body[1]) != p_expected(cur, n, chain_of[n]):
                     ctx.violation('export-signal-properties',
                                   'InterfacesAdded does not carry exactly the interfaces and the readable properties with their current values',
-                                  inp, observed=plain(sent[0].body[1]), expected=p_expected(cur, n))
-                    tainted = True
-            elif not tainted and (sent or h.exports.get(path) is insts[n] and exported.get(path) != n):
+                                  inp, observed=wire_plain(body[1]), expected=p_expected(cur, n, chain_of[n]))
+                    tainted[0] = True
+            elif exc is None and sig:
+                # an ill-typed value that still marshals (D3): the export happened; follow the implementation
+                exported[path] = n
+            elif not tainted[0] and (sent or (h.exports.get(path) is insts[n] and exported.get(path) != n)):
                 ctx.violation('failed-export-stays-visible' if not sent else 'failed-export-announces',
-                              'exportObject of an object whose properties cannot be sent announces it or leaves it in the table',
+                              'exportObject raised, yet it announces the object or leaves it in the table',
                               inp, observed=line, expected='raises, silent, no effect')
-                tainted = True
+                tainted[0] = True
         elif op[0] == 'unexport':
             try:
                 h.unexportObject(op[1])
@@ -1196,10 +1432,12 @@ def run_values_history(ctx, hist, lines, expect):
             except Exception as e:     # noqa
                 exc = type(e).__name__
             sent = take()
+            sig = len(sent) == 1 and is_sig(sent[0], 'InterfacesRemoved')
             if exc is not None:
                 line = 'raised' if not sent else 'raised+sent'
-            elif len(sent) == 1 and sent[0].member == 'InterfacesRemoved':
-                line = 'removed %s %s %s' % (hx(sent[0].path), hx(sent[0].body[0]), strs(list(sent[0].body[1])))
+            elif sig:
+                body = wire_body(sent[0])
+                line = 'removed %s %s %s' % (hx(sig.path), hx(body[0]), strs(list(body[1])))
             else:
                 line = 'other:%d' % len(sent)
             exported.pop(op[1], None)
@@ -1217,24 +1455,26 @@ def run_values_history(ctx, hist, lines, expect):
                 exc = None
             except Exception as e:     # noqa
                 exc = type(e).__name__
-            sent = take()
+            sent = [message.parseMessage(r, []) for r in take()]
             errs = [x for x in sent if isinstance(x, message.ErrorMessage)]
             rets = [x for x in sent if isinstance(x, message.MethodReturnMessage)]
             if exc is not None:
                 line = 'raised'
             elif errs:
-                line = 'unknown' if errs[0].error_name == UNKNOWN_OBJECT else 'err'
+                line = 'unknown' if errs[0].error_name == UNKNOWN_OBJECT else 'answered'
             elif rets:
-                line = 'ret'
+                line = 'answered'
             else:
                 line = 'noreply'
-            if line == 'ret' and path in exported:
-                for attr, (di, dp, sig, r, w) in P_DECL.items():
-                    if (di, dp) == (iface, pn):
-                        cur[(exported[path], attr)] = v
+            if rets and not errs and path in exported:
+                n = exported[path]
+                for attr, (di, dp, sig, rd, wr) in CHAINS[chain_of[n]].items():
+                    if dp == pn and (iface == di or (iface == '' and wr)):
+                        cur[(n, di, dp)] = v
+                        break
             lines.append('pset %s %s %s %s' % (hx(path), hx(iface), hx(pn), pval(v)))
             expect.append((hist, step_no, ['set', path, iface, pn], line))
-            ctx.stat('values-op=set/' + line)
+            ctx.stat('values-op=set/' + ('ret' if rets and not errs else line))
         # after every step: GetManagedObjects at every path of the universe
         for path in universe:
             m = message.MethodCallMessage(path, 'GetManagedObjects', interface=BUILTIN[2], destination=FakeConn.busName)
@@ -1248,19 +1488,20 @@ def run_values_history(ctx, hist, lines, expect):
                 exc = type(e).__name__
             sent = take()
             reply_d = None
+            parsed = [message.parseMessage(r, []) for r in sent]
             if exc is not None:
                 line = 'raised'
             elif len(sent) != 1:
                 line = 'replies=%d' % len(sent)
-            elif isinstance(sent[0], message.ErrorMessage):
-                line = 'unknown' if sent[0].error_name == UNKNOWN_OBJECT else ('failed' if sent[0].error_name == FAILED else 'error')
+            elif isinstance(parsed[0], message.ErrorMessage):
+                # the statement names no error: any error reply other than UnknownObject counts as "failed"
+                line = 'unknown' if parsed[0].error_name == UNKNOWN_OBJECT else 'failed'
             else:
-                body = sent[0].body[0]
-                reply_d = message.parseMessage(sent[0].rawMessage, []).body[0]
-                line = 'managed ' + (';'.join('%s:%s' % (hx(k), p_show_dict(v)) for k, v in body.items()) if body else '[]')
+                reply_d = wire_body(sent[0])[0]
+                line = 'managed ' + (';'.join('%s:%s' % (hx(k), p_show_dict(v)) for k, v in reply_d.items()) if reply_d else '[]')
             lines.append('pmanaged ' + hx(path))
             expect.append((hist, step_no, ['managed', path], line))
-            ctx.stat('values-answer=' + line.split(' ', 1)[0])
+            ctx.stat('values-answer=' + line.split(' ', 1)[0] + ('-nonempty' if reply_d else ''))
             judge_managed(step_no, path, reply_d, line)
     ctx.impl_trace()
 
@@ -1275,6 +1516,10 @@ def run_values(ctx, hists):
         return
     seen = set()
     for (hist, step_no, what, impl), m in zip(expect, out):
+        if impl is None:
+            continue
+        if what[0] == 'set':
+            m = 'unknown' if m == 'unknown' else 'answered'
         if pcanon(m) != pcanon(impl):
             key = (id(hist), what[0])
             if key in seen:
